@@ -15,7 +15,9 @@ from common import Ctx
 ID = "C05"
 PROPS = ["props/C05.v"]
 EXTRACTS = ["Solver"]
-THEOREMS = ["C05_first_repository_that_answers_wins", "C05_later_repositories_not_consulted",
+THEOREMS = ["C05_consistent_solution_makes_other_repositories_irrelevant", "C05_consistent_solution_reproduces_itself",
+            "C05_consistent_solution_reproduces_itself_marker_aware", "C05_reproduction_is_not_vacuous_and_hypotheses_are_needed",
+            "C05_first_repository_that_answers_wins", "C05_later_repositories_not_consulted",
             "C05_recorded_version_reproduced", "C05_recorded_version_falls_through", "C05_refuted_release_moves_unforced_pin"]
 RULE = ("chains: a generated universe is compiled by the real perform_compile, the result is written by the real "
         "write_requirements_file (multi-line or one-line) and loaded by the real SolutionRepository; the other repository "
@@ -220,6 +222,7 @@ def exec_chain(M, tmp: str, idx: int, case, first, variant: str, new_uni, exclud
         first_hashes = hashes_of(first["_results"], first["_roots"]) if with_hashes else None
         first_urls = urls_of(first["_results"], first["_roots"]) if with_urls else None
     except Exception as ex:  # noqa: BLE001
+        common.reraise_harness_fault(ex)
         count("writer-raised:" + type(ex).__name__)
         return None
     import req_compile.repos.multi as MU
@@ -227,6 +230,7 @@ def exec_chain(M, tmp: str, idx: int, case, first, variant: str, new_uni, exclud
     try:
         sol = SO.SolutionRepository(path, excluded_packages=excluded or None)
     except Exception as ex:  # noqa: BLE001
+        common.reraise_harness_fault(ex)
         count("loader-raised:" + type(ex).__name__)
         return {"variant": variant, "case": case, "first": first, "loader_error": type(ex).__name__, "multiline": multiline}
     su_loaded = sol_universe(sol)
@@ -310,8 +314,9 @@ def run_second(case: Dict[str, Any], repo, M) -> Dict[str, Any]:
     except RecursionError:
         out = {"kind": "DIVERGED"}
     except BaseException as ex:  # noqa: BLE001
-        if isinstance(ex, (KeyboardInterrupt, SystemExit)):
+        if isinstance(ex, (KeyboardInterrupt, SystemExit, common.HarnessFault)):
             raise
+        common.reraise_harness_fault(ex)     # an error of the in-memory repository is not an internal error of the code
         out = {"kind": "FATAL", "class": type(ex).__name__, "msg": str(ex)[:200]}
     return out
 
@@ -434,6 +439,15 @@ def url_violation(ch: Dict[str, Any], same_pins: Dict[str, str]) -> Optional[str
     return None
 
 
+def enc440_eq(a: str, b: str) -> Optional[bool]:
+    """same version? (None when either text is not a version)"""
+    from packaging.version import InvalidVersion, Version
+    try:
+        return Version(a) == Version(b)
+    except InvalidVersion:
+        return None
+
+
 def graphenc_key(name: str) -> str:
     import req_compile.utils as U
     return U.normalize_project_name(name)
@@ -480,6 +494,14 @@ def correspondence(ctx: Ctx) -> None:
         ch["loaded"] = canon_universe(ch["su_loaded"]) if ch["loader_diff"] else None
     lines = [solverlib.case_line(ch["second_case"], alphabet, xorder, C, U) for ch in runnable]
     answers = common.run_model("Solver", lines, timeout=1200) if lines else []
+    # which chains meet the hypothesis of the whole-compile theorems (ReproP.consistentb, evaluated by the extracted model on the
+    # solution universe and the inputs of the second compile)?  On those the theorems promise: never NoCandidate, every
+    # solved project carries its recorded pin, and nothing behind the solution matters - checked here on the model's AND on
+    # the code's second compile (the latter is what ties the theorem's reading of "consistent" to real solution files)
+    covered = common.run_model("Solver", ["K" + ln[1:] for ln in lines], timeout=600) if lines else []
+    for ch, kk in zip(runnable, covered):
+        ch["theorem_covered"] = (kk.strip() == "T") and not ch["second_case"].get("constraints") and not ch["second_case"].get("only_binary") \
+            and not ch["second_case"].get("extras")
     viol = 0
     for ch, a in zip(runnable, answers):
         try:
@@ -504,6 +526,25 @@ def correspondence(ctx: Ctx) -> None:
             ctx.count("model:hash-order-ambiguous")
         elif solverlib.canon(i) != solverlib.canon(m):
             ctx.mismatch("second-compile", {"chain": _brief_chain(ch)}, solverlib._brief(i), solverlib._brief(m))
+        if ch.get("theorem_covered"):
+            ctx.count("theorem-covered (ReproP hypothesis holds)")
+            sol_pins = {k: v[0][1] for k, v in ch["second_case"]["stack"][0]["universe"].items() if v}
+            for who, obs in (("model", m), ("code", i)):
+                if obs.get("kind") in ("AMBIGUOUS", "?", "FATAL", "DIVERGED"):
+                    continue
+                bad = None
+                if obs.get("kind") != "OK":
+                    bad = f"second compile ends {obs.get('kind')}"
+                else:
+                    for k, v in pins_of(obs).items():
+                        if k in sol_pins and enc440_eq(sol_pins[k], v) is False:
+                            bad = f"{k} solved at {v}, recorded {sol_pins[k]}"
+                        elif k not in sol_pins:
+                            bad = f"{k} solved although the solution does not record it"
+                    if who == "code" and obs.get("index_log"):
+                        bad = f"the repositories behind the solution were asked for {obs.get('index_log')}"
+                if bad:
+                    ctx.mismatch("theorem-conclusion-fails-on-" + who, {"chain": _brief_chain(ch)}, bad, "C05_consistent_solution_reproduces_itself")
         if chain_violation(ch):
             viol += 1
             ctx.extra.setdefault("statement_violations_examples", []).append({"why": chain_violation(ch), "new": bool(new_violation(ch)), "chain": _brief_chain(ch)})
